@@ -3,6 +3,7 @@ import LexVerif.Props.TablesParse
 import LexVerif.Proof.FastPathExact
 import LexVerif.Proof.BinaryCorrect
 import LexVerif.Proof.SlowBinaryDigits
+import LexVerif.Proof.BellSound
 /-!
 # C05 — non-decimal radix string→float parsing is correctly rounded (property theorems)
 
@@ -19,6 +20,8 @@ Algorithm level (models `Model.FastPath`, `Model.Binary`; tie: component ops `fp
 * `binary_decides` — without `many_digits` (or with `lossy`) `binary` always returns a valid float;
 * `binary_truncated_correct` — **complete**: a *valid* non-lossy answer for a truncated mantissa is `roundNE x`
   for every `x ∈ [M, M+1)·base^e` (the true value of the literal);
+* `bellerophon_radix_sound` — the full statement for generic radices, a `Prop`; `bellerophon_radix_sound_partial`
+  — proved for every **untruncated** mantissa, all 29 generic radices, `radix` and `compact` tables;
 * `slowBinary_correct` — **complete**: the undecided case: both digit loops, leading-zero skipping, the
   `u64_step` cut, the sticky flag and the rounding of `slow_binary`.
 -/
@@ -126,12 +129,12 @@ theorem binary_decides {F : FTy} (hF : F = FTy.f64 ∨ F = FTy.f32) {base : Nat}
   · exact binary_valid layout_f64 hb n lossy hm he.1 he.2 hdec
   · exact binary_valid layout_f32 hb n lossy hm he.1 he.2 hdec
 
-/-- the exclusion is needed: negation witness on the model (and on the implementation: op
+/-- the exclusion is needed (`<<< 40000` is `· 2^40000`, the exact value): negation witness on the model (and on the implementation: op
 `bin f64 202020000000000000000000000000c 9223372036854776832 40000 1 0` answers `ok 8730000000000400 …`) -/
 theorem binary_marker_overflow :
     Binary.binary FTy.f64 2 ⟨2 ^ 63 + 2 ^ 10, 40000, false, true⟩ false = .ok ⟨2 ^ 63 + 2 ^ 10, 8307⟩ ∧
     extendedToFloat FTy.f64 ⟨2 ^ 63 + 2 ^ 10, 8307⟩ = 0x8730000000000400 ∧
-    roundNE f64 ((2 ^ 63 + 2 ^ 10) * 2 ^ 40000) 1 = 0x7ff0000000000000 ∧
+    roundNE f64 ((2 ^ 63 + 2 ^ 10) <<< 40000) 1 = 0x7ff0000000000000 ∧
     ¬ MarkerOk FTy.f64 2 ⟨2 ^ 63 + 2 ^ 10, 40000, false, true⟩ := binary_marker_overflow_witness
 
 /-- `MarkerOk` holds on the whole range of finite results: `power2 < 32768` -/
@@ -197,5 +200,45 @@ example : Binary.binary FTy.f64 16 ⟨0x8000000000000400, 1, false, true⟩ fals
     Binary.slowBinary FTy.f64 false 16 16 16 1 [56,48,48,48,48,48,48,48,48,48,48,48,48,52,48,48,49] none = ⟨1, 1090⟩ ∧
     Binary.slowBinary FTy.f64 false 16 16 16 1 [56,48,48,48,48,48,48,48,48,48,48,48,48,52,48,48,48] none = ⟨0, 1090⟩ := by
   decide +kernel
+
+/-! ## Bellerophon, generic radices -/
+
+open LexVerif.Proof.Bell in
+/-- which `(tables, radix)` pairs the crate can be compiled with -/
+def IsBellTable (P : Gen.Bellerophon.Powers) (r : Nat) : Prop :=
+  (r ∈ bellRadicesRadix ∧ P = Gen.Bellerophon.Radix.powers r) ∨
+  (r ∈ bellRadicesCompact ∧ P = Gen.Bellerophon.CompactRadix.powers r)
+
+/-- **`bellerophon_radix_sound` — full statement** (a `Prop`): as `Props.C01.bellerophon_sound`, any radix. -/
+def bellerophon_radix_sound : Prop :=
+  ∀ F, (F = FTy.f64 ∨ F = FTy.f32) → ∀ P r, IsBellTable P r → ∀ (n : Num), n.mantissa < 2 ^ 64 →
+    ∀ (num den : Nat), 0 < den →
+    (powFrac r n.exponent n.mantissa).1 * den ≤ num * (powFrac r n.exponent n.mantissa).2 →
+    (if n.manyDigits then num * (powFrac r n.exponent (n.mantissa + 1)).2 < (powFrac r n.exponent (n.mantissa + 1)).1 * den
+     else num * (powFrac r n.exponent n.mantissa).2 = (powFrac r n.exponent n.mantissa).1 * den) →
+    ∀ fp, Bellerophon.bellerophon F P n false = .ok fp → 0 ≤ fp.exp →
+      extendedToFloat F fp = roundNE F.fmt num den
+
+open LexVerif.Proof.Bell in
+/-- **`bellerophon_radix_sound_partial`**: untruncated mantissas, every radix with tables, every exponent:
+a valid answer of `bellerophon::<F, FORMAT>` is `roundNE (w·r^e)`. -/
+theorem bellerophon_radix_sound_partial (F : FTy) (hF : F = FTy.f64 ∨ F = FTy.f32)
+    (P : Gen.Bellerophon.Powers) (r : Nat) (hP : IsBellTable P r) (n : Num) (hmany : n.manyDigits = false)
+    (hw : n.mantissa < 2 ^ 64) {fp : ExtendedFloat80}
+    (h : Bellerophon.bellerophon F P n false = .ok fp) (hv : 0 ≤ fp.exp) :
+    extendedToFloat F fp =
+      roundNE F.fmt (powFrac r n.exponent n.mantissa).1 (powFrac r n.exponent n.mantissa).2 := by
+  have hc : BellFacts r P := by
+    rcases hP with ⟨hr, rfl⟩ | ⟨hr, rfl⟩
+    · exact bellFacts_of (bellCheck_radix r hr)
+    · exact bellFacts_of (bellCheck_compact r hr)
+  rcases hF with h' | h' <;> subst h'
+  · exact bellerophon_untruncated_sound layout_f64 (by decide) hc n hmany hw h hv
+  · exact bellerophon_untruncated_sound layout_f32 (by decide) hc n hmany hw h hv
+
+/-- non-vacuity: radix 3 -/
+example : Bellerophon.bellerophon FTy.f64 (Gen.Bellerophon.Radix.powers 3) ⟨12345, 10, false, false⟩ false =
+    .ok ⟨1611359263391744, 1052⟩ ∧ IsBellTable (Gen.Bellerophon.Radix.powers 3) 3 := by
+  refine ⟨by decide +kernel, Or.inl ⟨by decide, rfl⟩⟩
 
 end LexVerif.Props.C05
